@@ -1252,7 +1252,11 @@ class SMPose(SMUserList):
 
         :seealso: :meth:`__sub__`
         """
-        return -left.__sub__(right)
+        diff = left.__sub__(right)
+        if isinstance(diff, list):
+            return [-x for x in diff]
+        else:
+            return -diff
 
     def __isub__(left, right):  # lgtm[py/not-named-self] pylint: disable=no-self-argument
         """
